@@ -186,6 +186,8 @@ def inventory_rule(ctx, rep, prop, rule):
                 ty = a["place"]["ty"] if a["k"] in ("copy", "move") else a["c"]["ty"]
                 if not (ty.startswith("&mut") and owns_tree(ty)):
                     continue
+                if ty == "&mut std::option::Option<ast::Aidl>":
+                    continue    # the result's slot for the whole tree (`fr.ast.take()`, `fr.ast = Some(..)`), not a part of the tree: what ends up in it is clause (a)
                 n_sites += 1
                 oka = name.endswith(TREE_ACCESSORS) or "std::iter::Iterator::" in name or name.endswith(" as std::iter::Iterator>::next") or "as std::iter::IntoIterator>::into_iter" in name
                 rep.check(oka, rule, "%s|%s|call|%s|%s" % (prop, rule, pth, name), cfg.where(f, t),
